@@ -535,6 +535,11 @@ def apply(it, fn, args, dest_ty, term, caller, depth):
     # ---- formatting / printing: results are irrelevant to the analysed behaviour
     if path.startswith("core::fmt::") or path.startswith("core::io::_print") or path.startswith("std::io::_print") \
             or path.startswith("core::io::stdio::_print") or path.startswith("log::"):
+        if getattr(it.h, "interpret_fmt", False) and name == "fmt" and (fn.get("trait") or "").split("::")[-1] in ("Display", "Debug", "LowerHex", "UpperHex", "Binary") \
+                and it.find_body(fn) is not None:
+            # one of the crate's own formatting impls called directly (Debug delegating to Display …) while a harness is watching what
+            # gets written: interpret it
+            return NotImplemented
         return Opaque(dest_ty, {"fmt"})
 
     # ---- second batch (idioms not used by the pinned tree)
